@@ -206,8 +206,11 @@ def run(chk):
     # both use the loop identifier, calls, element assignments), which uniform sampling of pairs almost never produces
     feats = {"if": lambda c: c["op"] == "if", "loop": lambda c: bool(c.get("loops")), "acall": lambda c: c["op"] == "acall",
              "sub": lambda c: bool(c.get("sub")), "yield": lambda c: c["op"] == "yield"}
+    plain = [c for c in alpha if c["op"] in ("assign", "acall", "yield")]
+    else_pool = [p + [{"op": "else"}, rng.choice(plain), {"op": "endelse"}] for p in pool if p and p[-1]["op"] == "endif"]
+    feats["else"] = lambda c: c["op"] == "else"
     for fname, has in sorted(feats.items()):
-        sel = [p for p in pool if any(has(c) for c in p)]
+        sel = [p for p in pool + else_pool if any(has(c) for c in p)]
         if not sel:
             raise tlc.MachineryError("no generated program has feature %s" % fname)
         for _ in range(150 if chk.quick else 3000):
